@@ -50,8 +50,10 @@ def cells(tier):
         out.append({'kind': 'load', 'backend': 'redis'})
         out.append({'kind': 'load', 'backend': 'redis', 'extra': 6,
                     'enqueue_at_start': 1})
-        out.append({'kind': 'load', 'backend': 'disk', 'extra': 2,
-                    'enqueue_at_start': 1})
+        out.append({'kind': 'load', 'backend': 'disk', 'extra': 6,
+                    'enqueue_at_start': 1, 'K': 24})
+        out.append({'kind': 'load', 'backend': 'cloud', 'extra': 6,
+                    'enqueue_at_start': 1, 'K': 12})
         for b in ('redis', 'disk', 'cloud'):
             out.append({'kind': 'inject', 'backend': b, 'K': 40})
         out.append({'kind': 'flush', 'backend': 'dict', 'msgs': 2})
